@@ -467,7 +467,7 @@ def insert_workflow(a01: bool, a02: bool, a12: bool, b01: bool, b02: bool, b12: 
                     s0: int, s1: int, s2: int, s3: int, s4: int, s5: int) -> bool:
     """
     A.insert_workflow(B, predecessors) for A of NA and B of NB tasks: PM = 0 None (all output tasks of A), 1 a single
-    Task a_k, 2 a non-empty list (subset of A, ascending or reversed).  outputs:inputs N:N are connected pairwise in
+    Task a_k, 2 a non-empty list (subset of A, ascending or reversed), 3 an explicitly empty list (no connection).  outputs:inputs N:N are connected pairwise in
     order, N:1 all outputs to the input, 1:N the output to all inputs, anything else is refused with ValueError.
     Afterwards the builder holds exactly the tasks of A and B and the edges of A, B and the connection, B is
     unchanged, and the result evaluates to the reference.
@@ -487,6 +487,9 @@ def insert_workflow(a01: bool, a02: bool, a12: bool, b01: bool, b02: bool, b12: 
     elif PM == 1:
         outs = [i for i in a_nodes if i == k]
         arg = objs[outs[0]]
+    elif PM == 3:
+        outs = []           # an explicitly empty list: no predecessor (B with one input task is inserted unconnected)
+        arg = []
     else:
         outs = [i for i, p in zip(a_nodes, (p0, p1, p2)) if p]
         if len(outs) > 1 and rev:
